@@ -53,3 +53,4 @@ META['C20'] = dict(level='proof', level_text='', level_note='', explanation='wip
 META['C07'] = dict(level='proof', level_text='', level_note='', explanation='wip', assumptions=[], technique=TECH)
 META['C12'] = dict(level='other', level_text='', level_note='', explanation='wip', assumptions=[], technique=TECH)
 META['C09'] = dict(level='other', level_text='', level_note='', explanation='wip', assumptions=[], technique=TECH)
+META['C08'] = dict(level='proof', level_text='', level_note='', explanation='wip', assumptions=[], technique=TECH)
